@@ -251,6 +251,12 @@ func (e *Engine) lookupNamed(name string) types.Type {
 		}
 		return nil
 	}
+	if strings.HasPrefix(name, "*") {
+		if et := e.lookupNamed(name[1:]); et != nil {
+			return types.NewPointer(et)
+		}
+		return nil
+	}
 	if !strings.Contains(name, ".") {
 		if o := types.Universe.Lookup(name); o != nil {
 			if tn, ok := o.(*types.TypeName); ok {
